@@ -18,15 +18,16 @@ class C04(Prop):
                   "the line-geometry tracker guarantees what it checks. The executable line-by-line model of the ascii reader (FASTA, EMBL/UniProt, GenBank/DDBJ, daemon, hmmpgmd, autodetection; block size B a parameter) is tied to the working tree by an exact differential run over Read / ReadInfo / ReadSequence / windows on both strands / ReadBlock (short and long-target) / FASTA round trip x text and digital mode x B in {1,2,3,7,64,4096,random}, "
                   "and agreement monitors (records equal across read paths, block sizes and modes; offsets are the true byte positions; windows reassemble the sequence; reverse strand = reverse complement; write+re-read reproduces the records) give the concrete failing input.")
     level_note = ("Block-size independence, Read/ReadInfo/ReadSequence agreement, true offsets and layout independence are established by the differential run and the monitors, not by a theorem about the whole reader (only the window schedule, the offset arithmetic and the tracker are theorems). "
-                  "FASTA, EMBL/UniProt, GenBank/DDBJ, daemon, hmmpgmd, suffix/first-line autodetection and ReadBlock are inside the model; gzip/stdin plumbing and the alignment-as-sequences branch are not. Known finding: the bytes/residues-per-line tracker accepts a longer last line (reverse windows then fail) - see known_findings.d/C04.json.")
+                  "FASTA, EMBL/UniProt, GenBank/DDBJ, daemon, hmmpgmd, suffix/first-line autodetection and ReadBlock are inside the model; the same files are also read through a real gzip -dc pipe and through standard input (emulated with freopen in a child) and compared with the model; the alignment-as-sequences branch is not modelled. Known: on a pipe the four offsets come from a failing ftello() (known_findings.d/C04.json), only they are excluded from the comparison there. Known finding: the bytes/residues-per-line tracker accepts a longer last line (reverse windows then fail) - see known_findings.d/C04.json.")
     assumptions = ["fread returns min(B, remaining) bytes; allocation never fails (eslEMEM paths not modelled)",
                    "the model mirrors esl_sqio_ascii.c by hand; fidelity is checked by the differential run only",
-                   "gzip pipe, stdin and alignment files read as sequences are outside the model (monitor only)",
+                   "alignment files read as sequences are outside the model (monitor only); a gzip pipe / standard input deliver the bytes of the file (popen/freopen plumbing trusted)",
                    "after a failed call the handle is not used again (the API leaves its state unspecified)"]
     technique = ("Lean 4 proofs about an executable line-by-line model of esl_sqio_ascii.c's FASTA reader core and its specification, "
                  "+ exact differential correspondence of the model with the ASan/UBSan build over generated files x read calls x window geometries x read-block sizes, "
                  "+ property monitors on the implementation's output")
     trusted_base = ["hand model of esl_sqio_ascii.c (loadmem loadbuf nextchar seebuf addbuf skipbuf read_nres skip_whitespace header/skip/end_{fasta,embl,genbank} end_daemon fileheader_hmmpgmd GuessFileFormat Read ReadInfo ReadSequence ReadWindow ReadBlock Position WriteFasta) tied by exact differential run (h_sqio.c)",
+                    "gzip and fork/freopen (standard input is emulated by re-opening stdin on the file in a child process)",
                     "alphabet tables regenerated from esl_alphabet.c on every run (kind G)",
                     "Lean compiler/runtime for the executable driver; gcc; ASan/UBSan"]
     rule = ("cases = generated FASTA files (0..6 records quick / 0..40 thorough, constant or ragged widths, blanks, CRLF, with/without final newline) "
@@ -106,11 +107,22 @@ class C04(Prop):
                 fmt = rng.choice(["embl", "uniprot", "genbank", "ddbj"])
                 if fmt == "uniprot":
                     kind = "amino"
-                data, meta = S.gen_linebased(rng, fmt, kind, tier=ctx.tier)
+                if rng.random() < 0.4:
+                    data, meta = S.gen_boundary_linebased(rng, fmt, kind)
+                else:
+                    data, meta = S.gen_linebased(rng, fmt, kind, tier=ctx.tier)
             else:
                 data, meta = S.gen_fasta(rng, ctx.tier, kind)
             nrec = len(meta["recs"])
             ops = ["file ext=dat hex=" + hx(data), "open fmt=%s abc=text B=4096" % fmt] + ["read"] * (nrec + 1) + ["close"]
+            if rng.random() < 0.3:
+                # the same bytes through a gzip -dc pipe / through standard input (format given or autodetected on the stream)
+                for _ in range(rng.choice([1, 2])):
+                    call = rng.choice(["read", "readinfo", "readseq", "win"])
+                    abc2 = rng.choice(["text", kind])
+                    ops.append("srcscan src=%s fmt=%s abc=%s B=%d call=%s C=%d W=%d" % (
+                        rng.choice(["gzip", "stdin"]), fmt if rng.random() < 0.6 else "unknown", abc2, rng.choice(S.BSIZES), call,
+                        rng.choice([0, 2, 10]), rng.choice([1, 7, 60, 5000])))
             nsess = rng.choice([2, 3, 4])
             for s in range(nsess):
                 abc = rng.choice(["text", "text", kind])
